@@ -175,8 +175,15 @@ def step (st : St) (l : Line) : St × List Msg :=
     -- D13: between the moment the old header left the index directory and the moment the new one arrived
     -- (or, earlier in the same window, with the header still in place but some of the OLD files already moved out: the next
     -- open then rescans a log with a hole)
+    -- The window is exactly the steps between the first file move and the arrival of the NEW header (theorem C09_d13_window);
+    -- `movefiles.header_moved` fires in both moves, and after the second one the store is complete (C09_d13_recogniser_extra_step
+    -- showed the point-name form to be one step too wide): inside the window the directory has no header, or still the header
+    -- with the OLD bit size.
+    let hdrOldOrAbsent : Bool := match im.disk.ihdr with
+      | some h => h.bits != st.seq.cfg.bits
+      | none => !im.badIdxHdr
     let noHeader := inTranslate && ((im.disk.ihdr.isNone && !im.badIdxHdr) ||
-      point == "movefiles.file_moved" || point == "movefiles.header_moved" || point == "translate.old_moved")
+      ((point == "movefiles.file_moved" || point == "movefiles.header_moved" || point == "translate.old_moved") && hdrOldOrAbsent))
     let tainted := if isEnd then st.taint11 else (st.imgTaint11 || st.taint11)
     -- D14: the resume of the offset remapping trusts `.remapped` markers, which are created before the remapped copy is renamed
     -- over the original and whose files' deletion pool is not rebuilt
